@@ -4,14 +4,20 @@
 Writes /verif/seeded/<id>/recheck.json {head, applies, check, reports_violation} and prints one line per seed."""
 import glob, json, os, subprocess, sys, tempfile
 
+only = None
+if len(sys.argv) > 1 and sys.argv[1] == "--only":
+    only = set(sys.argv[2].split(","))
+    sys.argv = sys.argv[:1]
 idx, nstreams = (int(sys.argv[1]), int(sys.argv[2])) if len(sys.argv) > 2 else (0, 1)
 head = subprocess.run(["git", "-C", "/repo", "log", "--format=%h", "-1"], capture_output=True, text=True).stdout.strip()
 seeds = sorted(glob.glob("/verif/seeded/*/meta.json"))
 for n, f in enumerate(seeds):
-    if n % nstreams != idx:
+    if only is None and n % nstreams != idx:
         continue
     d = os.path.dirname(f)
     name = os.path.basename(d)
+    if only is not None and name not in only:
+        continue
     meta = json.load(open(f))
     catching = [k for k, v in meta.get("checks", {}).items() if v.get("reports_violation")]
     if not catching:
